@@ -14,6 +14,7 @@ from .. import diff, env, runner
 from ..gen import placement
 from ..gen.progs import ProgGen
 from ..gen.timegen import TimeGen
+from ..gen.exits import ExitGen
 from ..model import ast as A
 from ..svm.vm import FAULT_FLAGS
 from . import common
@@ -46,6 +47,8 @@ def plan(tier, seed):
         specs.append({'kind': 'gen', 'seed': s, 'count': per})
     specs.append({'kind': 'examples', 'steps': 1_500_000 if tier == 'quick' else 8_000_000})
     specs.append({'kind': 'illegal'})
+    for s in common.shard_seeds(seed, 4 if tier == 'quick' else 16):
+        specs.append({'kind': 'exits', 'seed': s, 'count': 40 if tier == 'quick' else 120})
     return specs
 
 
@@ -119,6 +122,17 @@ def run_shard(spec):
                     run_one(res, src, args, word, True, tag, sites)
             if len(res['samples']) < 1:
                 res['samples'].append({'gen': tag, 'source': src[:1200], 'args': args})
+    elif spec['kind'] == 'exits':
+        # function bodies with non-trivial exit analysis, followed in memory by a defeat function that is never
+        # called: control that runs off the end of the body reaches an uncaught defeat, i.e. a committed halt
+        boom = A.Func('!boom', [('k', A.INT, False)], A.EMPTY, [A.ExprStmt(A.Call('!is_defeat', []))])
+        for i in range(spec['count']):
+            prog, flavor, ret = ExitGen(spec['seed'] * 100003 + i).program()
+            prog.funcs.insert(2, boom)
+            src = A.render(prog)
+            for x in ('0', '1', '2', '5'):
+                for unchecked in (False, True):
+                    run_one(res, src, [x], 2, unchecked, f'exits+boom:{spec["seed"]}:{i}', sites)
     elif spec['kind'] == 'illegal':
         # programs that must be rejected; an accepted one is still subject to "never halts"
         for tag, src in placement.illegal_programs():
